@@ -236,13 +236,23 @@ Section Compose.
   Variable A : list part -> option text.
   Variable fuel : nat.
 
-  Lemma cleanup_verdict earlier c st res :
-    cleanup_and_finish R A fuel earlier c st = Ok res ->
+  (* [cleanup_and_finish] got two more arguments (C10 builder, model now follows executor.py): [swallow] (true
+     on the path from a before-assert failure: a cleanup failure is swallowed) and the phase code of the
+     earlier failure. *)
+  Lemma cleanup_verdict earlier eph c st res :
+    cleanup_and_finish R A fuel false earlier eph c st = Ok res ->
     exists sc stc, exec_phase R A fuel PhCleanup (tc_cleanup c) st = Ok (sc, stc) /\
                    rs_verdict res = match sc with StPass => earlier | _ => sc end.
   Proof.
     unfold cleanup_and_finish. destruct (exec_phase R A fuel PhCleanup (tc_cleanup c) st) as [[sc stc]|e]; [|discriminate].
     intros H. exists sc, stc. split; [reflexivity|]. destruct sc; injection H as <-; reflexivity.
+  Qed.
+
+  Lemma cleanup_swallowed_verdict earlier eph c st res :
+    cleanup_and_finish R A fuel true earlier eph c st = Ok res -> rs_verdict res = earlier.
+  Proof.
+    unfold cleanup_and_finish. destruct (exec_phase R A fuel PhCleanup (tc_cleanup c) st) as [[sc stc]|e]; [|discriminate].
+    intros H. destruct sc; injection H as <-; reflexivity.
   Qed.
 
   Ltac finish_leaf Hmode :=
@@ -271,14 +281,14 @@ Section Compose.
       cbn; (split; [reflexivity|]); repeat split; try discriminate; auto;
       try (intros Hx; contradiction Hx; reflexivity).
     destruct s1.
-    2,3: (destruct (cleanup_verdict _ _ _ _ Hrun) as (sc & stc & Ec & Hv);
+    2,3: (destruct (cleanup_verdict _ _ _ _ _ Hrun) as (sc & stc & Ec & Hv);
           pose proof (phase_behs_ffail R A fuel Cleanup (Some PSetup) PhCleanup _ _ 0 _ _ Ec) as Fc;
           fold (mains Cleanup (Some PSetup) (phase_behs R A fuel PhCleanup (tc_cleanup c) st1)) in Fc;
           finish_leaf Hmode; rewrite F1, Fc, Hv; destruct sc; leaf_tail).
     (* setup passes: act *)
     destruct (exec_act R A fuel (tc_act c) st1) as [[s2 st2]|e] eqn:E2; [|discriminate].
     destruct s2.
-    2,3: (destruct (cleanup_verdict _ _ _ _ Hrun) as (sc & stc & Ec & Hv);
+    2,3: (destruct (cleanup_verdict _ _ _ _ _ Hrun) as (sc & stc & Ec & Hv);
           pose proof (phase_behs_ffail R A fuel Cleanup (Some PAct) PhCleanup _ _ 0 _ _ Ec) as Fc;
           fold (mains Cleanup (Some PAct) (phase_behs R A fuel PhCleanup (tc_cleanup c) st2)) in Fc;
           finish_leaf Hmode; rewrite F1, Fc, Hv; cbn [beh_of_status Exec.outcome option_map]; destruct sc; leaf_tail).
@@ -287,17 +297,18 @@ Section Compose.
     pose proof (phase_behs_ffail R A fuel BeforeAssert None PhBefore _ _ 0 _ _ E3) as F3.
     fold (mains BeforeAssert None (phase_behs R A fuel PhBefore (tc_before c) st2)) in F3.
     destruct s3.
-    2,3: (destruct (cleanup_verdict _ _ _ _ Hrun) as (sc & stc & Ec & Hv);
-          finish_leaf Hmode; rewrite F1, F3, Hv; cbn [beh_of_status Exec.outcome option_map]; destruct sc; leaf_tail).
+    2,3: (pose proof (cleanup_swallowed_verdict _ _ _ _ _ Hrun) as Hv;
+          finish_leaf Hmode; rewrite F1, F3, Hv; cbn [beh_of_status Exec.outcome option_map]; leaf_tail).
     (* before-assert passes: assert, then cleanup *)
     destruct (exec_phase R A fuel PhAssert (tc_assert c) st3) as [[s4 st4]|e] eqn:E4; [|discriminate].
     pose proof (phase_behs_ffail R A fuel Assert None PhAssert _ _ 0 _ _ E4) as F4.
     fold (mains Assert None (phase_behs R A fuel PhAssert (tc_assert c) st3)) in F4.
-    destruct (cleanup_verdict _ _ _ _ Hrun) as (sc & stc & Ec & Hv).
-    pose proof (phase_behs_ffail R A fuel Cleanup (Some PAssert) PhCleanup _ _ 0 _ _ Ec) as Fc.
-    fold (mains Cleanup (Some PAssert) (phase_behs R A fuel PhCleanup (tc_cleanup c) st4)) in Fc.
-    finish_leaf Hmode. rewrite F1, F3, F4, Fc, Hv. cbn [beh_of_status Exec.outcome option_map].
-    destruct s4, sc; leaf_tail.
+    destruct s4;
+      (destruct (cleanup_verdict _ _ _ _ _ Hrun) as (sc & stc & Ec & Hv);
+       pose proof (phase_behs_ffail R A fuel Cleanup (Some PAssert) PhCleanup _ _ 0 _ _ Ec) as Fc;
+       fold (mains Cleanup (Some PAssert) (phase_behs R A fuel PhCleanup (tc_cleanup c) st4)) in Fc;
+       finish_leaf Hmode; rewrite F1, F3, F4, Fc, Hv; cbn [beh_of_status Exec.outcome option_map];
+       destruct sc; leaf_tail).
   Qed.
 End Compose.
 
@@ -362,12 +373,14 @@ Proof. vm_compute. repeat split. Qed.
     real instructions both failures are HARD_ERROR and only the location differs): before-assert
     [exit-code == 1] after an act that exits 0, cleanup [run] exiting 1. *)
 Definition case_r : tcase := TC [] ActNull [IExitCode 1] [] [IRun false prog_p].
-Theorem verdict_after_before_assert_failure_refuted :
+(* was [verdict_after_before_assert_failure_refuted] while Model/Prog.v let the cleanup failure win; the model now
+   follows _continue_from_before_assert, and on the former witness model and executor agree (C10 builder). *)
+Theorem verdict_after_before_assert_failure_agrees :
   exists res f,
     run_case 10 [47%N] [] case_r [Out 1 [] []] = Ok res /\
     fr_failure (snd (full_execute (lower resolve_tbl assemble_in_order 10 TPass [47%N] [] case_r [Out 1 [] []]))) = Some f /\
-    f_phase f = BeforeAssert /\ f_status f = FFail /\ rs_verdict res = StHard /\ kind_of (rs_verdict res) <> f_status f.
+    f_phase f = BeforeAssert /\ f_status f = FFail /\ rs_verdict res = StFail /\ kind_of (rs_verdict res) = f_status f.
 Proof.
   eexists _, (Failure BeforeAssert SMain 0 FFail). split; [vm_compute; reflexivity|].
-  split; [vm_compute; reflexivity|]. cbn. repeat split. discriminate.
+  split; [vm_compute; reflexivity|]. cbn. repeat split.
 Qed.
